@@ -300,7 +300,11 @@ def judge_in_coq(ctx, problems, results, qpairs, name, shard=40):
             for el in lst:
                 # (k, [(a, b); ...])
                 import re
-                m = re.match(r"\((\d+),\s*\[(.*)\]\)", el.replace("%nat", ""))
+                m = re.match(r"\(\s*(\d+),\s*\[(.*)\]\s*\)", el.replace("%nat", ""))
+                if m is None:
+                    ctx.log("unparsed judge element:", el[:300])
+                    bad.append((None, el[:300]))
+                    continue
                 k = int(m.group(1))
                 prs = [(int(a), int(b)) for a, b in re.findall(r"\((\d+),\s*(\d+)\)", m.group(2))]
                 bad.append((s + k, prs))
